@@ -2,6 +2,7 @@
 # usage: tools/try_patch.sh <patch.diff> <PROP> [<PROP>...]
 # runs the quick checks of the named properties against a scratch worktree of /repo carrying the patch (VERIF_REPO); /repo stays untouched.
 set -u
+mkdir -p /tmp/seed_out /tmp/wt
 PATCH="$1"; shift
 TAG="$(basename "$(dirname "$PATCH")")"
 WT="/tmp/wt/tp_${TAG}_$$"
